@@ -146,7 +146,23 @@ def read_loads(repo):
     # __Bc_Integration_Dim: rule, selection, einsums, sum over the Gauss points
     f = M["__Bc_Integration_Dim"]
     text = _seg(src, f)
-    eins = [c.args[0].value for fn, c in _calls(f, src) if fn == "np.einsum" and c.args and isinstance(c.args[0], ast.Constant)]
+    # einsum subscripts as a SET (the same integration statement may be written once per branch or once after
+    # the if/else), and separately the subscripts of every einsum assigned to the array that is summed over the
+    # Gauss-point axis (np.sum(<array>, axis=1)): all of them must be the integration einsum
+    all_eins = [c for fn, c in _calls(f, src) if fn == "np.einsum"]
+    if any(not (c.args and isinstance(c.args[0], ast.Constant) and isinstance(c.args[0].value, str)) for c in all_eins):
+        raise TranslateError("__Bc_Integration_Dim: einsum subscripts are not string literals")
+    eins = sorted(set(c.args[0].value for c in all_eins))
+    m_sum = re.search(r"np\.sum\((\w+), axis=1\)", _seg(src, f))
+    summed = m_sum.group(1) if m_sum else None
+    integ = sorted(set(s_.value.args[0].value for s_ in ast.walk(f)
+                       if isinstance(s_, ast.Assign) and len(s_.targets) == 1 and isinstance(s_.targets[0], ast.Name) and s_.targets[0].id == summed
+                       and isinstance(s_.value, ast.Call) and _seg(src, s_.value.func) == "np.einsum"))
+    n_defs = sum(1 for s_ in ast.walk(f) if isinstance(s_, ast.Assign) and len(s_.targets) == 1 and isinstance(s_.targets[0], ast.Name) and s_.targets[0].id == summed)
+    if summed is None or not integ or n_defs != sum(1 for s_ in ast.walk(f) if isinstance(s_, ast.Assign) and len(s_.targets) == 1
+                                                   and isinstance(s_.targets[0], ast.Name) and s_.targets[0].id == summed
+                                                   and isinstance(s_.value, ast.Call) and _seg(src, s_.value.func) == "np.einsum"):
+        raise TranslateError("__Bc_Integration_Dim: the array summed over the Gauss-point axis is not defined by np.einsum only")
     rules = sorted(set(_seg(src, s) for s in ast.walk(f) if isinstance(s, ast.Attribute) and isinstance(s.value, ast.Name) and s.value.id == "MatrixType"))
     sel = [(_seg(src, c.args[0]) if c.args else None, {k.arg: _seg(src, k.value) for k in c.keywords}) for fn, c in _calls(f, src) if fn == "groupElem.Get_Elements_Nodes"]
     if sel != [("nodes", {"exclusively": "True"})]:
@@ -161,7 +177,7 @@ def read_loads(repo):
             and len(s.targets) == 1 and isinstance(s.targets[0], ast.Name) and _seg(src, s.value.left) == s.targets[0].id]
     if len(div) != 1:
         raise TranslateError("__Bc_pointLoad: expected exactly one division of the evaluated values (v /= len(nodes))")
-    return {"table": table, "einsums": eins, "rules": rules, "point_div": div[0]}
+    return {"table": table, "einsums": eins, "integration_einsums": integ, "rules": rules, "point_div": div[0]}
 
 
 def emit_coq(r):
@@ -172,5 +188,6 @@ def emit_coq(r):
     return ("(* GENERATED from EasyFEA/Simulations/_simu.py by translator/C09_loads.py — do not edit *)\n"
             "From Coq Require Import String List Arith.\nFrom EFModel Require Import C09_Loads.\nImport ListNotations.\nOpen Scope string_scope.\n"
             "Definition dispatch_src (l : load) (meshdim : nat) : option (nat * bool) :=\n  match l, meshdim with\n%s\n  | _, _ => None\n  end.\n"
-            "Definition einsums_src : list string := [%s].\nDefinition rules_src : list string := [%s].\nDefinition point_div_src : string := \"%s\".\n"
-            % ("\n".join(rows), "; ".join('"%s"' % e for e in r["einsums"]), "; ".join('"%s"' % e for e in r["rules"]), r["point_div"]))
+            "Definition einsums_src : list string := [%s].\nDefinition integration_einsums_src : list string := [%s].\nDefinition rules_src : list string := [%s].\nDefinition point_div_src : string := \"%s\".\n"
+            % ("\n".join(rows), "; ".join('"%s"' % e for e in r["einsums"]), "; ".join('"%s"' % e for e in r["integration_einsums"]),
+               "; ".join('"%s"' % e for e in r["rules"]), r["point_div"]))
